@@ -12,6 +12,7 @@ import pydrobert.torch.command_line as CL
 import pydrobert.torch.data as data
 
 from mc.oracles import slicing as O
+from mc.seams import ListingPolicy, LISTING_POLICIES
 
 RULE = (
     "dir: directories of <= 3 well-formed utterances (feat (T,2) float, ali (T,) long, ref (R,3) long) "
@@ -26,7 +27,8 @@ RULE = (
     "alignment / segments), decoy files that do not match prefix / suffix, the command's default --format-utt and "
     "an explicit one, policies fixed / ali / ref x 4 configurations x default + one other token flag pair; the set "
     "of output files must be exactly the expected one (fixed, ali) and every file name must carry prefix, suffix, "
-    "and its source id."
+    "and its source id. LISTING ORDER: the spelling directories (two namings) again with os.listdir / os.scandir answering "
+    "in each of five non-sorted orders (with the sorted one: every permutation of the three entries)."
 )
 PAD = 7
 FMT = "{utt_id}@{idx}@{start}@{end}"
@@ -96,6 +98,11 @@ def shards(tier, seed):
     for prefix in SPELL_PREFIXES:
         for suffix in SPELL_SUFFIXES:
             out.append({"part": "dir", "policy": "spelling", "prefix": prefix, "suffix": suffix})
+    # the order in which the OS lists feat/, ali/ and ref/ is an environment answer: the three-utterance spelling
+    # directories again under each non-sorted listing policy (with the sorted one: every permutation of 3 entries)
+    for prefix, suffix in (("", ".pt"), ("x_", ".feat.pt")):
+        for pol in LISTING_POLICIES[1:]:
+            out.append({"part": "dir", "policy": "spelling", "prefix": prefix, "suffix": suffix, "listing": pol})
     return out
 
 
@@ -156,9 +163,20 @@ def _spelling_utts():
 
 
 def _run_spelling(ctx, spec, tier, seed):
+    pol = spec.get("listing")
+    if pol:
+        with ListingPolicy(pol) as lp:
+            _run_spelling_inner(ctx, spec, tier, seed, pol)
+        ctx.count("directory-listings-answered-by-the-seam", lp.calls)
+    else:
+        _run_spelling_inner(ctx, spec, tier, seed, None)
+
+
+def _run_spelling_inner(ctx, spec, tier, seed, pol):
     prefix, suffix = spec["prefix"], spec["suffix"]
     utts = _spelling_utts()
-    root = f"/dev/shm/verif-{os.getpid()}/c10-spell-{SPELL_PREFIXES.index(prefix)}{SPELL_SUFFIXES.index(suffix)}"
+    root = (f"/dev/shm/verif-{os.getpid()}/c10-spell-{SPELL_PREFIXES.index(prefix)}{SPELL_SUFFIXES.index(suffix)}"
+            f"{pol or ''}")
     src = os.path.join(root, "src")
     try:
         _write_src(src, utts, seed, SPELL_NAMES, prefix, suffix, _decoys(prefix, suffix))
@@ -171,6 +189,8 @@ def _run_spelling(ctx, spec, tier, seed):
                 for partial, retain in [(False, False)] + (others if tier == "thorough" else [others[ci % 3]]):
                     call = {"utts": utts, "policy": policy, "cfg": [wt, v, l], "partial": partial, "retain": retain,
                             "names": SPELL_NAMES, "prefix": prefix, "suffix": suffix, "fmt": fmt}
+                    if pol:
+                        call["listing"] = pol
                     _eval(ctx, call, seed, src, os.path.join(root, "out"))
     finally:
         shutil.rmtree(root, ignore_errors=True)
@@ -224,7 +244,11 @@ def replay(ctx, call, seed):
         prefix, suffix = call.get("prefix", ""), call.get("suffix", ".pt")
         _write_src(src, call["utts"], seed, call.get("names"), prefix, suffix,
                    _decoys(prefix, suffix) if "prefix" in call else ())
-        _eval(ctx, call, seed, src, os.path.join(root, "out"))
+        if call.get("listing"):
+            with ListingPolicy(call["listing"]):
+                _eval(ctx, call, seed, src, os.path.join(root, "out"))
+        else:
+            _eval(ctx, call, seed, src, os.path.join(root, "out"))
     finally:
         shutil.rmtree(root, ignore_errors=True)
         try:
